@@ -25,6 +25,7 @@ func init() { core.Register(c20{}) }
 func (c20) ID() string { return "C20" }
 
 type c20cfg struct {
+	pre      []spec.Test // tests declared before the judged one; they hold for every subject (a passing test must not end the node)
 	kind     spec.Kind
 	elem     *spec.Node // slices
 	test     spec.Test
@@ -256,6 +257,13 @@ func buildC20Configs() []c20cfg {
 			c20cfg{kind: spec.Slice, elem: strElem, test: spec.Test{Op: spec.TMax, N: n}, subjects: lens, name: fmt.Sprintf("Slice.Max(%d)", n)},
 			c20cfg{kind: spec.Slice, elem: strElem, test: spec.Test{Op: spec.TLen, N: n}, subjects: lens, name: fmt.Sprintf("Slice.Len(%d)", n)})
 	}
+	// the judged test is not the first one declared on the slice: an always-true test comes first
+	for n := 0; n <= 3; n++ {
+		always := []spec.Test{{Op: spec.TMin, N: 0}}
+		out = append(out, c20cfg{kind: spec.Slice, elem: strElem, pre: always, test: spec.Test{Op: spec.TMax, N: n}, subjects: lens, name: fmt.Sprintf("Slice.Min(0).Max(%d)", n)},
+			c20cfg{kind: spec.Slice, elem: strElem, pre: always, test: spec.Test{Op: spec.TLen, N: n}, subjects: lens, name: fmt.Sprintf("Slice.Min(0).Len(%d)", n)},
+			c20cfg{kind: spec.Slice, elem: strElem, pre: append(always, spec.Test{Op: spec.TMax, N: 99}), test: spec.Test{Op: spec.TMin, N: n + 1}, subjects: lens, name: fmt.Sprintf("Slice.Min(0).Max(99).Min(%d)", n+1)})
+	}
 	// slices: Contains by deep equality
 	strSets := func(core.Tier) []any {
 		return []any{[]string{}, []string{"a"}, []string{"b", "a"}, []string{"A"}, []string{"a "}, []string{"", "x"}, []string{"é"}, []string{"é"}}
@@ -326,7 +334,7 @@ func (c20) RunCase(c *core.Ctx) {
 	subjects := cfg.subjects(c.Tier)
 	mk := func(def any, hasDef bool) (*spec.Node, *spec.Built) {
 		t := cfg.test
-		n := &spec.Node{Kind: cfg.kind, Elem: cfg.elem, Tests: []spec.Test{t}}
+		n := &spec.Node{Kind: cfg.kind, Elem: cfg.elem, Tests: append(append([]spec.Test{}, cfg.pre...), t)}
 		if hasDef {
 			n.Mods = []spec.Mod{{Op: spec.MDefault, Val: def}}
 		}
@@ -336,7 +344,7 @@ func (c20) RunCase(c *core.Ctx) {
 	plainN, plainB := mk(nil, false)
 	evals, fails := 0, 0
 	for _, subj := range subjects {
-		holds, known := ref.TestHolds(&plainN.Tests[0], subj)
+		holds, known := ref.TestHolds(&plainN.Tests[len(cfg.pre)], subj)
 		if !known {
 			c.Count("skipped_no_reference_verdict", 1)
 			continue
@@ -348,6 +356,10 @@ func (c20) RunCase(c *core.Ctx) {
 			n, b := plainN, plainB
 			var o *run.Outcome
 			viaDefault := false
+			if cfg.kind == spec.Slice && evals%3 == 0 {
+				// the recycled context this call picks up was last used by a node whose Catch fired (what earlier calls leave behind)
+				prefillDirty("SchemaCtx.Exit")
+			}
 			if c20ZeroOrBlank(cfg.kind, subj, mode) {
 				// absent-looking subjects reach the test through Default(subject)
 				if cfg.kind == spec.Slice && reflect.ValueOf(subj).IsNil() {
@@ -383,7 +395,7 @@ func (c20) RunCase(c *core.Ctx) {
 				c.Violation("panic|"+cfg.test.Op.String(), det(map[string]any{"panic": fmt.Sprint(o.Panic), "stack": trunc(o.Stack, 2000)}))
 				return
 			}
-			code := n.Tests[0].EffCode()
+			code := n.Tests[len(cfg.pre)].EffCode()
 			cnt := 0
 			for _, ci := range o.Issues {
 				if ci.Code == code {
